@@ -66,6 +66,9 @@ MUTS = ([o + ':' + k for o in ARITH for k in ('num', 'arr', 'obj', 'objm', 'objT
         [o + ':' + k for o in LOGIC for k in ('bool', 'arr', 'obj', 'objm', 'objT')] +
         ['set:0:num', 'set:0:masked', 'set:sl:obj', 'set:sl:objm', 'set:all:num', 'set:all:objd', 'set:bm:num',
          'set:mi:num'] +
+        # REJECTED calls: a right-hand side / operand whose shape does not fit (unmasked, mask True, array mask)
+        ['set:sl:bad', 'set:sl:badT', 'set:sl:badm', 'set:bm:badT', 'iadd:bad', 'iadd:badT', 'isub:badarr', 'imul:bad',
+         'itruediv:badT', 'iand:bad'] +
         ['insd:t', 'insd:u', 'insds', 'deld:t', 'deld:zz', 'delds', 'delds:pt',
          'units:km', 'units:none', 'units:sec', 'ro', 'ro:nr', 'hold:arr'])
 
@@ -92,15 +95,15 @@ ALPHABET = {n: _alphabet(n) for n in OBJECTS}
 
 _CQ = ['q:antimask', 'q:corners', 'q:slicer', 'q:wod']
 COMPACT = {
-    'S3m': _CQ + ['iadd:num', 'imul:objm', 'set:0:masked', 'set:sl:obj', 'insd:t', 'units:km', 'ro', 'shun:arr', 'q:times2'],
-    'S3': _CQ + ['isub:arr', 'itruediv:zero', 'imod:objm', 'imod:objz', 'ifloordiv:arrz', 'set:bm:num', 'set:mi:num', 'insd:t', 'deld:t', 'hold:arr', 'unheld'],
+    'S3m': _CQ + ['set:sl:badT', 'iadd:bad', 'iadd:num', 'imul:objm', 'set:0:masked', 'set:sl:obj', 'insd:t', 'units:km', 'ro', 'shun:arr', 'q:times2'],
+    'S3': _CQ + ['set:sl:badT', 'set:sl:badm', 'isub:arr', 'itruediv:zero', 'imod:objm', 'imod:objz', 'ifloordiv:arrz', 'set:bm:num', 'set:mi:num', 'insd:t', 'deld:t', 'hold:arr', 'unheld'],
     'S0': _CQ + ['iadd:num', 'imul:num', 'iadd:objm', 'set:all:num', 'set:sl:objm', 'insd:t', 'shun:arr', 'ro'],
     'S0d': _CQ + ['iadd:num', 'isub:arr', 'imul:num', 'itruediv:num', 'imod:num', 'ifloordiv:num', 'imod:objz', 'itruediv:objzd', 'deld:t', 'units:km', 'ro', 'q:plus1'],
-    'S3d': _CQ + ['iadd:num', 'imul:num', 'iadd:objd', 'imul:objm', 'set:0:masked', 'delds', 'ro', 'shun:arr', 'holdw', 'q:heldw'],
-    'S23m': _CQ + ['set:0:num', 'set:sl:objm', 'iadd:objm', 'imul:objT', 'shun:arr', 'hold:arr', 'unheld', 'q:mod2', 'imod:arrz', 'itruediv:objz'],
+    'S3d': _CQ + ['set:sl:badT', 'imul:bad', 'iadd:num', 'imul:num', 'iadd:objd', 'imul:objm', 'set:0:masked', 'delds', 'ro', 'shun:arr', 'holdw', 'q:heldw'],
+    'S23m': _CQ + ['set:sl:badT', 'set:bm:badT', 'set:0:num', 'set:sl:objm', 'iadd:objm', 'imul:objT', 'shun:arr', 'hold:arr', 'unheld', 'q:mod2', 'imod:arrz', 'itruediv:objz'],
     'I3': _CQ + ['iand:objm', 'ior:arr', 'ixor:obj', 'iadd:num', 'ifloordiv:obj', 'ifloordiv:objz', 'imod:objm', 'imod:zero', 'insd:t'],
     'I0d': _CQ + ['iand:bool', 'ior:objm', 'iadd:num', 'imul:num', 'deld:t', 'ro'],
-    'B3': _CQ + ['iand:objm', 'ior:objm', 'ixor:objm', 'iand:bool', 'ior:arr', 'set:0:masked', 'shun:arr'],
+    'B3': _CQ + ['set:sl:bad', 'iand:bad', 'iand:objm', 'ior:objm', 'ixor:objm', 'iand:bool', 'ior:arr', 'set:0:masked', 'shun:arr'],
     'B0': _CQ + ['iand:objm', 'ior:bool', 'ixor:objT', 'set:all:num', 'set:sl:objm', 'ro'],
     'V2d': _CQ + ['iadd:objm', 'imul:num', 'imul:objm', 'itruediv:num', 'itruediv:objz', 'set:0:masked', 'deld:t', 'units:km'],
     'V0': _CQ + ['iadd:obj', 'imul:num', 'imul:objT', 'set:all:num', 'insd:t'],
@@ -171,6 +174,27 @@ def _scalar_like(a, kind):
     if kind in ('objd', 'objzd') and b.is_float():
         b.insert_deriv('t', Scalar(vals)); b.insert_deriv('w', Scalar(vals))
     return b
+
+
+def _bad(a, kind, scalar=False):
+    """an operand whose leading shape (last axis one longer than a's, or (5,) for a shapeless a's slice) cannot be
+    broadcast into a: kind bad (unmasked) | badT (mask True) | badm (array mask) | badarr (plain ndarray)"""
+    shape = (a._shape_[:-1] + (a._shape_[-1] + 1,)) if a._shape_ else (5,)
+    item = () if scalar else a._item_
+    if a.is_bool() and not scalar:
+        vals = np.ones(shape + item, dtype=bool)
+    elif a.is_int():
+        vals = np.full(shape + item, 3)
+    else:
+        vals = np.full(shape + item, 3.)
+    if kind == 'badarr':
+        return vals
+    m = False
+    if kind == 'badT':
+        m = True
+    elif kind == 'badm':
+        m = np.zeros(shape, dtype=bool); m.flat[0] = True
+    return (Scalar if scalar else type(a))(vals, m)
 
 
 def _antimask_arg(a):
@@ -248,7 +272,7 @@ def apply_op(st, op):
         return canon_obj(st['s'].unshrink(st['am'], a._shape_), ro=False)
     if h in IOPS:
         k = p[1]
-        if h in ('iand', 'ior', 'ixor'):
+        if h in ('iand', 'ior', 'ixor') and not k.startswith('bad'):
             if k == 'bool': arg = True
             elif k == 'arr': arg = np.ones(a._shape_, dtype=bool) if a._shape_ else np.bool_(True)
             else:
@@ -262,6 +286,11 @@ def apply_op(st, op):
                         m = True
                 if k == 'objT': m = True
                 arg = Boolean(vals, m)
+        elif k.startswith('bad'):
+            if h in ('iand', 'ior', 'ixor'):
+                arg = Boolean(np.ones((a._shape_[-1] + 1,) if a._shape_ else (5,), dtype=bool), k == 'badT')
+            else:
+                arg = _bad(a, k, scalar=h not in ('iadd', 'isub'))
         elif k == 'num': arg = 2 if a.is_int() and h not in ('itruediv',) else 2.
         elif k == 'zero': arg = 0
         elif k == 'arr':
@@ -289,7 +318,9 @@ def apply_op(st, op):
         elif p[1] == 'mi':
             idx = Scalar(np.array([0, 1]), np.array([False, True]))
         k = p[2]
-        if k == 'num':
+        if k.startswith('bad'):
+            val = _bad(a, k)
+        elif k == 'num':
             val = True if a.is_bool() else (7 if a.is_int() else 7.)
             if a._rank_:
                 val = type(a)(np.full(a._item_, val))
@@ -392,6 +423,15 @@ def same_values(x, y):
     if x.shape != y.shape or x.dtype.kind != y.dtype.kind:
         return False
     return bool(np.array_equal(x, y, equal_nan=(x.dtype.kind == 'f')))
+
+
+def antimask_representation_mismatch(q):
+    """a cached antimask that is a single bool next to an array mask (or the reverse): `_find_corners` assumes they
+    have the same representation"""
+    c = q._cache_
+    if 'antimask' not in c:
+        return False
+    return isinstance(c['antimask'], np.ndarray) != isinstance(q._mask_, np.ndarray)
 
 
 def stale_entries(q, label='self'):
@@ -747,8 +787,9 @@ def run_plain(objname, ops, disable):
     try:
         a = OBJECTS[objname]()
         st = {'a': a, 's': None}
-        answers, stale, snaps = [], [], []
+        answers, stale, snaps, reps = [], [], [], []
         st['snaps'] = snaps
+        st['reps'] = reps
         for op in ops:
             try:
                 ans = apply_op(st, op)
@@ -756,6 +797,7 @@ def run_plain(objname, ops, disable):
                 ans = C.exc_name(e)
             answers.append(ans)
             stale.append([] if disable else stale_entries(a))
+            reps.append(False if disable else antimask_representation_mismatch(a))
             snaps.append({k: st.get(k) for k in ('held_state', 'held_snapshot', 'now_state', 'now_reference')})
         # final interrogation of every view
         final = []
@@ -789,6 +831,13 @@ def run_twins(objname, ops):
     for k, op in enumerate(ops):
         if op.startswith('hold:'):
             held_at = k
+        if st_on['reps'][k]:
+            rejected = isinstance(ans_on[k], str) and ans_on[k] not in ('ok', 'none', 'self') and not is_query(op)
+            return ('antimask-representation:%s:%s' % ('after-rejected' if rejected else 'after', op),
+                    'history %s on %s: after step %d (%s, outcome %s) the mask is %s but the cached antimask is %s; '
+                    'corners/_slicer then raise ValueError in _find_corners, with Qube.DISABLE_CACHE=True they answer'
+                    % (ops[:k + 1], objname, k, op, ans_on[k] if isinstance(ans_on[k], str) else 'answer',
+                       'an array' if isinstance(st_on['a']._mask_, np.ndarray) else 'a single bool', 'of the other kind'))
         if stale_on[k]:
             return ('stale:%s:after:%s' % (','.join(stale_on[k]), last_mutator(ops, k)),
                     'history %s on %s: after step %d (%s) the cached %s differ(s) from recomputation from the current arrays'
